@@ -305,6 +305,13 @@ def local_policy(F, root, events=(), keep=(), also_inline=(), public_events=Fals
     kept opaque without being recorded.  Functions of other files stay opaque unless `also_inline` matches.
     This makes a rule's verdict independent of how the code under analysis is split into helpers."""
     rf = file_of(F, root)
+    if not hasattr(F, '_norm_hir'):
+        F._norm_hir = {}
+        for k in F.hir:
+            F._norm_hir.setdefault(norm_path(k), k)
+
+    def canon_path(p):
+        return p if p in F.hir else F._norm_hir.get(p, F._norm_hir.get(norm_path(p), p))
     ev = [re.compile(x) for x in events]
     kp = [re.compile(x) for x in keep]
     ai = [re.compile(x) for x in also_inline]
@@ -316,6 +323,7 @@ def local_policy(F, root, events=(), keep=(), also_inline=(), public_events=Fals
     def is_event(p):
         if any(r.search(p) for r in ev):
             return True
+        p = canon_path(p)
         # with public_events, the crate's public API (and everything outside the crate except std) is the
         # vocabulary of the trace; private / pub(crate) helpers are looked through
         if public_events and p != root:
@@ -331,6 +339,7 @@ def local_policy(F, root, events=(), keep=(), also_inline=(), public_events=Fals
     def inline(p):
         if is_event(p) or any(r.search(p) for r in kp):
             return False
+        p = canon_path(p)
         if any(r.search(p) for r in ai):
             return True
         if not (p in F.hir and file_of(F, p) == rf):
@@ -1476,10 +1485,15 @@ class State:
                 self.expr(body, env)
             except ContinueEx as c:
                 if c.target not in (loop_id, None):
+                    self.effect('loop_exit', 'continue-outer', (src,), e)
                     raise
             except BreakEx as b:
+                self.effect('loop_exit', 'break', (src,), e)
                 if b.target not in (loop_id, None):
                     raise
+            except ReturnEx:
+                self.effect('loop_exit', 'return', (src,), e)
+                raise
         finally:
             self.loops.pop()
             self.effect('loop_end', 'for', (src,), e)
